@@ -451,6 +451,7 @@ void GenRun(void* mp, u16 opcode, u64 default_answer, int ndev, const int32_t* d
     Config config = decoded.call(generator, opcode, 0);
     out->enabled = config.enable;
     out->need_expansion = decoded.NeedExpansion();
+    out->gen_expand_kind = config.expand == ExpandConfig::None ? 0 : config.expand == ExpandConfig::Any ? 1 : 2;
     if (!config.enable)
         return;
     VerifChoiceEngine::default_answer = default_answer;
